@@ -22,7 +22,9 @@ UNWRAP_METHODS = {'unwrap', 'expect', 'unwrap_err', 'expect_err', 'unwrap_unchec
 PANICKY_METHODS = {'insert_str', 'remove', 'swap_remove', 'split_at', 'split_at_mut', 'split_off', 'drain', 'copy_from_slice',
                    'clone_from_slice', 'swap', 'chunks', 'chunks_exact', 'windows', 'step_by', 'repeat', 'rotate_left', 'rotate_right',
                    'truncate_front', 'borrow_mut', 'replace_range', 'char_indices_panics', 'abs', 'pow', 'rem_euclid', 'div_euclid',
-                   'set_span_panics', 'select_nth_unstable', 'reserve_exact'}
+                   'set_span_panics', 'select_nth_unstable', 'reserve_exact',
+                   # String methods that take a byte index and panic off a char boundary / out of range
+                   'truncate', 'from_utf8_unchecked', 'get_unchecked', 'get_unchecked_mut', 'as_str_unchecked'}
 ABORT_PATHS = ('process::exit', 'process::abort', 'std::process::exit', 'std::process::abort', 'abort', 'exit',
                'std::panic::panic_any', 'panic_any', 'std::hint::unreachable_unchecked', 'unreachable_unchecked')
 ARITH_OPS = {'+', '-', '*', '/', '%', '<<', '>>', '+=', '-=', '*=', '/=', '%=', '<<=', '>>='}
@@ -44,6 +46,25 @@ def copy_elsewhere(sites, s):
     """is there a census site for the same construct (same source line, same text) in another function — the inlined copy of a
     helper's statement in one of its callers?  Only then may the helper's own, context-free copy be left to the callers."""
     return any(o is not s and o.fw.fn is not s.fw.fn and o.kind == s.kind and o.ev.line == s.ev.line and o.what == s.what for o in sites)
+
+
+PUNCTUATED_FIELDS = {'bounds', 'params', 'predicates', 'args', 'inputs', 'elems', 'named', 'unnamed', 'variants', 'lifetimes', 'segments', 'nested'}
+
+
+def punctuated_hole_followed(t):
+    """does the template interpolate a syn Punctuated field (`x.bounds`, `generics.params`, ..) and go on with further tokens right after it?"""
+    def scan(tokens):
+        for i, tok in enumerate(tokens):
+            if tok['t'] == 'h' and i + 1 < len(tokens):
+                tr = t.hole_term(tok['s'])
+                while isinstance(tr, tuple) and tr and tr[0] in ('ref', 'deref', 'clone') and len(tr) == 2:
+                    tr = tr[1]
+                if isinstance(tr, tuple) and tr and tr[0] == 'field' and tr[2] in PUNCTUATED_FIELDS:
+                    return True
+            if tok['t'] in ('g', 'rep') and scan(tok['ts']):
+                return True
+        return False
+    return scan(t.tokens)
 
 
 def census(cx, fns):
@@ -140,8 +161,39 @@ class Discharger:
                         return ('R8-fresh-loop-ident', 'identifier characters repeated at least once: a valid identifier')
         return None
 
+    def r_dead(self, s):
+        """an inherent, non-public function that nothing in the crate refers to (no call by path, no method call of that name, not
+        even as a value) cannot run: a proc-macro crate exports nothing but its derive entry point"""
+        f = s.fw.fn
+        if f.trait is not None or (f.item.get('vis') or '') == 'pub' or f.name in ('main',):
+            return None
+        if getattr(self, '_refs', None) is None:
+            from ..syn import walk_json
+            refs = set()
+            for g in self.cx.crate.fns:
+                for x in walk_json(g.item.get('block')):
+                    if isinstance(x, dict):
+                        if x.get('k') == 'MethodCall':
+                            refs.add(x.get('method'))
+                        elif x.get('k') == 'Path' and isinstance(x.get('path'), dict) and x['path'].get('segs'):
+                            refs.add(x['path']['segs'][-1]['id'])
+                        elif x.get('k') == 'Macro' and isinstance(x.get('mac'), dict):
+                            for t_ in walk_json(x['mac'].get('tokens') or x['mac'].get('tmpl') or []):
+                                if isinstance(t_, dict) and t_.get('t') == 'i':
+                                    refs.add(t_.get('s'))
+            self._refs = refs
+        if f.name in self._refs:
+            return None
+        # attribute macros (derive entry points) are referenced by the compiler
+        if any(a.get('name', '').startswith('proc_macro') for a in (f.item.get('attrs') or [])):
+            return None
+        return ('R0-dead-code', 'the function `%s` is referred to nowhere in the crate' % f.qname)
+
     def discharge(self, s):
         """returns (rule name, explanation) or None"""
+        r0 = self.r_dead(s)
+        if r0:
+            return r0
         r8 = self.r_fresh_loop(s)
         if r8:
             return r8
@@ -193,6 +245,10 @@ class Discharger:
                 d = t.hole_def(h)
                 if d is None:
                     return None
+            # a syn `Punctuated` prints its trailing punctuation when it has one (`T: A +`): followed by more tokens of the same list
+            # (`#bounds + #trait`) the result is `A + + Trait`, which does not re-parse
+            if punctuated_hole_followed(t):
+                return None
         return ('R2-template-parses', 'every template reaching this parse2 parses as %s under hole substitution' % '/'.join(sorted(set(cats))))
 
     # R3 ----------------------------------------------------------------------------------
@@ -642,7 +698,9 @@ def check_termination(cx, cg, fns, rep):
                 else:
                     rep.ok('TERM', '%s|for %s' % (f.qname, es(it)[:60]))
             elif ev.kind == 'loop':
-                if fresh_name_loop_ok(fw, ev, cx):
+                if structural_descent_loop(ev.node):
+                    rep.ok('TERM', '%s|structural descent loop' % f.qname, {'file': f.file, 'line': ev.line, 'why': '`while let P(x) = v { v = <a field of x> }` walks down a finite syntax tree'})
+                elif fresh_name_loop_ok(fw, ev, cx):
                     rep.ok('TERM', '%s|fresh-name search loop' % f.qname, {'file': f.file, 'line': ev.line, 'why': 'candidate grows every iteration; exits when absent from a finite set'})
                 else:
                     rep.bad('TERM', f.qname, '%s-loop' % ev.node['k'].lower(),
@@ -656,6 +714,31 @@ def check_termination(cx, cg, fns, rep):
             rep.ok('TERM', '%s|recursion on a strict sub-term of the argument' % f.qname, {'file': f.file, 'line': f.line})
         else:
             rep.bad('TERM', f.qname, 'recursion', 'recursive function without a structurally decreasing argument', f.file, f.line)
+
+
+def structural_descent_loop(node):
+    """`while let Variant(x) = v { v = x.field[.as_ref()/&..]; }`: every iteration replaces v by a strict sub-term of itself"""
+    if node.get('k') != 'While' or not isinstance(node.get('cond'), dict) or node['cond'].get('k') != 'Let':
+        return False
+    c = node['cond']
+    v = strip_refs(c['expr'])
+    if v['k'] != 'Path' or len(v['path']['segs']) != 1:
+        return False
+    p = c['pat']
+    if p.get('k') != 'TupleStruct' or len(p.get('elems', [])) != 1 or p['elems'][0].get('k') != 'Ident':
+        return False
+    x = p['elems'][0]['name']
+    st = node['body'].get('stmts', [])
+    if len(st) != 1 or st[0].get('k') != 'Expr' or st[0]['expr'].get('k') != 'Assign':
+        return False
+    a = st[0]['expr']
+    if a['l_'].get('k') != 'Path' or a['l_']['path']['s'] != v['path']['s']:
+        return False
+    r = a['r_']
+    while r.get('k') in ('Ref', 'Paren') or (r.get('k') == 'MethodCall' and r.get('method') in ('as_ref', 'as_mut', 'deref') and not r['args']) \
+            or (r.get('k') == 'Unary' and r.get('op') == '*'):
+        r = r.get('expr') or r.get('recv')
+    return r.get('k') == 'Field' and r['base'].get('k') == 'Path' and r['base']['path']['s'] == x
 
 
 def _idents_in(node):
@@ -719,6 +802,16 @@ def fresh_name_loop_ok(fw, ev, cx=None):
     return any(_idents_in(t) & derived for t in test_nodes if t is not None)
 
 
+def _from_param_iteration(t, params, depth=0):
+    """is the term a (payload of a) loop element / match binder obtained by iterating one of the function's parameters?"""
+    from ..terms import subterms
+    if depth > 6 or not isinstance(t, tuple):
+        return False
+    has_param = any(isinstance(x, tuple) and x and x[0] == 'param' and x[1] in params for x in subterms(t))
+    has_elem = any(isinstance(x, tuple) and x and x[0] in ('elem', 'payload') for x in subterms(t))
+    return (has_param and has_elem) or (isinstance(t, tuple) and t and t[0] == 'payload' and has_elem)
+
+
 def structurally_decreasing(cx, cg, f):
     fw = cx.fw(f)
     params = [p[0] for p in f.params()]
@@ -737,6 +830,10 @@ def structurally_decreasing(cx, cg, f):
                 if t[0] == 'payload':
                     return True
                 return False
+            # `f(group.stream(), ..)` with `group` taken out of the token stream that is the argument: the nested stream of a group
+            # is a strict part of the stream that contains the group
+            if isinstance(t, tuple) and t and t[0] == 'mcall' and len(t) == 3 and t[2] == 'stream' and _from_param_iteration(t[1], params):
+                continue
             if not proj_of_param(t):
                 return False
     return True
